@@ -142,7 +142,17 @@ func (m *MethodEvaluator) parseKeyIdentifierToKeyWordT(
 
 	// test(a: 1)
 	if !t.IsTargetIdentifier(endIdentifier) && !t.IsCommaIdentifier() {
-		err = m.outerEval.Eval(m.parser, m.ctx, t)
+		// the value is a whole expression ('a: x.size + 1'), parsed like a
+		// positional argument: up to the comma that ends it
+		zaorik := m.ctx.SuspendMultiValue()
+		err = m.outerEval.EvalExpr(
+			m.parser,
+			m.ctx,
+			t,
+			m.parser.LastCallT.GetPower(),
+		)
+		zaorik()
+
 		if err != nil {
 			return nil, err
 		}
